@@ -53,3 +53,26 @@ for dp, dn, fns in os.walk(os.path.join(REPO, "tradingenv")):
                         s_ |= {n.id for n in ast.walk(tg) if isinstance(n, ast.Name)}
             names[os.path.relpath(p, REPO)] = sorted(s_)
 json.dump(names, open(os.path.join(V, "sa", "known_constants.json"), "w"), indent=1, sort_keys=True)
+
+# reviewed signatures (sa/known_signatures.json): qualified function name -> parameter names; a parameter that is not in the
+# list, has a literal default and is only ever passed that default inside the package is bound to it (sa/normalise.py::bind_new_parameters)
+sigs = {}
+for dp, dn, fns in os.walk(os.path.join(REPO, "tradingenv")):
+    dn[:] = sorted(d for d in dn if d != "__pycache__")
+    for fn in sorted(fns):
+        if fn.endswith(".py"):
+            p = os.path.join(dp, fn)
+            rel = os.path.relpath(p, REPO)
+            modname = rel[:-3].replace(os.sep, ".")
+            if modname.endswith(".__init__"):
+                modname = modname[:-9]
+            t = ast.parse(open(p, "rb").read())
+            for node in t.body:
+                if isinstance(node, ast.FunctionDef):
+                    sigs[f"{modname}:{node.name}"] = [a.arg for a in node.args.posonlyargs + node.args.args + node.args.kwonlyargs]
+                elif isinstance(node, ast.ClassDef):
+                    for s_ in node.body:
+                        if isinstance(s_, ast.FunctionDef):
+                            sigs[f"{modname}:{node.name}.{s_.name}"] = [a.arg for a in s_.args.posonlyargs + s_.args.args + s_.args.kwonlyargs]
+json.dump(sigs, open(os.path.join(V, "sa", "known_signatures.json"), "w"), indent=1, sort_keys=True)
+print(len(sigs), "signatures")
